@@ -85,6 +85,7 @@ type ChanObj struct {
 	// rendezvous support for unbuffered channels
 	recvWaiting int
 	Timer       bool
+	Fires       int // remaining times a timer/ticker channel may deliver
 	sent, taken int
 }
 
